@@ -600,3 +600,41 @@ VARIANTS += [
                 "new": _TYPES_LINE + "_TEXT_NODE_TYPES = (InventoryObject, InventoryItem)\n"
                                      "_READERS = {t.SCHEMA_NAME: t for t in _TEXT_NODE_TYPES}\n"}]},
 ]
+
+# ---------------------------------------------------------------------- round 8
+_PREFIX_IF = "            if not isinstance(data, RawBytes):\n"
+
+VARIANTS += [
+    {"name": "R2 reader shortcut maps the empty-map document to None", "file": SCHEMA, "expect": "C20.R2",
+     "old": _LLSD_DES_OLD,
+     "new": "        val = val.partition(\"|\")[0].strip()\n        if val == \"<llsd><map /></llsd>\":\n            return None\n"
+            "        return llsd.parse_xml(val.encode(\"utf8\"))\n"},
+    {"name": "R2 reader shortcut returns an empty map for the undef document", "file": SCHEMA, "expect": "C20.R2",
+     "old": _LLSD_DES_OLD,
+     "new": "        val = val.partition(\"|\")[0].strip()\n        if val in (\"<llsd><undef /></llsd>\", \"<llsd><undef/></llsd>\"):\n            return {}\n"
+            "        return llsd.parse_xml(val.encode(\"utf8\"))\n"},
+    {"name": "P R2 reader shortcut for both spellings of the undef document", "file": SCHEMA, "expect": "silent",
+     "old": _LLSD_DES_OLD,
+     "new": "        val = val.partition(\"|\")[0].strip()\n        if val in {\"<llsd><undef /></llsd>\", \"<llsd><undef/></llsd>\"}:\n            return None\n"
+            "        return llsd.parse_xml(val.encode(\"utf8\"))\n"},
+    {"name": "R4 payload copied into a bytearray before the RawBytes test", "file": XFER, "expect": "C20.R4",
+     "old": _PREFIX_COMMENT, "new": "            data = bytearray(data)\n" + _PREFIX_COMMENT},
+    {"name": "P R4 payload snapshotted only when it is not bytes already", "file": XFER, "expect": "silent",
+     "old": _PREFIX_COMMENT, "new": "            if not isinstance(data, bytes):\n                data = bytes(data)\n" + _PREFIX_COMMENT},
+    {"name": "P R4 payload snapshotted inside the framing branch", "file": XFER, "expect": "silent",
+     "old": "                data = TemplateDataPacker.pack(len(data), MsgType.MVT_S32) + data\n",
+     "new": "                data = TemplateDataPacker.pack(len(data), MsgType.MVT_S32) + bytes(data)\n"},
+    {"name": "R11 unpack predicate helper also tests the wire value", "expect": "C20.R11",
+     "edits": [{"file": MESH, "old": _SEG_READ_OLD,
+                "new": "            if self._should_unpack(key, val):\n                reader = se.BufferReader(\"<\", val)\n"},
+               {"file": MESH, "old": "    def serialize(self, vals: Dict[str, Any]):\n        new_segment = {}\n",
+                "new": "    def _should_unpack(self, name, raw) -> bool:\n        return name in self._templates and len(raw) > 0\n\n"
+                       "    def serialize(self, vals: Dict[str, Any]):\n        new_segment = {}\n"}]},
+    {"name": "P R11 membership predicates extracted on both sides", "expect": "silent",
+     "edits": [{"file": MESH, "old": _SEG_READ_OLD, "new": "            if self._templated(key):\n                reader = se.BufferReader(\"<\", val)\n"},
+               {"file": MESH, "old": "            if key in self._templates and not isinstance(val, bytes):\n",
+                "new": "            if self._templated(key) and not isinstance(val, bytes):\n"},
+               {"file": MESH, "old": "    def serialize(self, vals: Dict[str, Any]):\n        new_segment = {}\n",
+                "new": "    def _templated(self, name) -> bool:\n        return name in self._templates\n\n"
+                       "    def serialize(self, vals: Dict[str, Any]):\n        new_segment = {}\n"}]},
+]
